@@ -8,7 +8,7 @@ CONSTANTS
   Small = TRUE
   Avoid = FALSE
   SimK = 0
-  Acts = {"dset", "rebind", "ddel", "batch", "ldel"}
+  Acts = {"dset", "rebind", "ddel", "batch", "ldel", "ctor"}
 CONSTRAINT LevelBound
 VIEW view
 INVARIANT Conforms
